@@ -19,7 +19,7 @@ func c01Plan(tier string) histPlan {
 	if tier == "thorough" {
 		return histPlan{Enum: gen.EnumParams{MaxAdds: []int{6, 4, 3}}, Rand: 120000, Tall: 300}
 	}
-	return histPlan{Enum: gen.EnumParams{MaxAdds: []int{4, 3, 2}}, Rand: 2500, Tall: 6}
+	return histPlan{Enum: gen.EnumParams{MaxAdds: []int{4, 3, 2}}, Rand: 12000, Tall: 16}
 }
 
 func init() {
